@@ -14,7 +14,9 @@ RULE = ('schemas over {int, Optional[int], float, bool, str, SequenceID, List[in
         'nested table} (dynamic classes and 18 classes of bionumpy.datatypes) x operand tables of 0..4 rows x programs '
         'of 1..4 operations from {integer-array index, boolean mask, slice (any step), concatenate (right, left, self, '
         '3-way), sort_by, replace, add_fields, from_entry_tuples(tolist), from_dict(todict), from_data_frame(topandas), '
-        'single index, iteration}; non-trivial = at least 2 columns of different representation and an operand with '
+        'single index, iteration, add_fields on the other operand}; plus sort_by on 17..40-row tables with few distinct keys '
+        '(every sortable key kind, directly and after concatenation) and pairs of add_fields with one field name and two '
+        'declared types on two tables of one class; non-trivial = at least 2 columns of different representation and an operand with '
         '>= 1 row and a program with >= 1 table-producing operation')
 EXHAUSTIVE = {'quick': False, 'thorough': False}
 TIE = ('translator+correspondence: translate/gen_c19.py regenerates the decision rules of bnpdataclass.py and '
@@ -24,8 +26,8 @@ TIE = ('translator+correspondence: translate/gen_c19.py regenerates the decision
        'against the stored columns, rows and dict keys of the real objects')
 ASSUMPTIONS = ['npstructures RaggedArray and NumPy indexing/concatenation/promotion are modelled at their documented '
                'behaviour (flat data + row lengths; dtype join; int64->float64 rounds to nearest even)',
-               'np.argsort(kind=\'stable\') (the repaired sort_by) is a stable sort: the comparison with the model is exact '
-               'for sort_by too',
+               'sort_by is judged against the STABLE sort of the row list (spec_ok) and compared exactly with the model: '
+               'np.argsort(kind=\'stable\') of the repaired sort_by must be honoured by every column type',
                'pandas: DataFrame(d).to_dict(\'series\') returns the keys of d with the same column values (ndarray with '
                'its dtype, string Series, object column of row arrays / str) — the pandas round trip is modelled as the '
                'dict round trip; real pandas is in the loop of the correspondence',
@@ -276,6 +278,71 @@ def generate(tier, seed):
         c1 = [_gen_col(rng, k, n1, True) for _, k in sch]
         p = [[rng.choice(['catr', 'catl', 'cat3'])]] + _gen_prog(rng, sch, n0 + n1, n1, rng.choice([0, 1, 2]), True)
         cases.append(dict(cls='dyn', schema=sch, c0=c0, c1=c1, prog=p))
+    # (6) sort_by on tables of 17..40 rows with few distinct key values (NumPy's default sort is stable only up to 16
+    #     elements): every sortable key kind, built directly or by concatenating small tables; a second column
+    #     numbers the rows so that the order among equal keys is visible
+    FEW = dict(strand=['+', '-', '-', '.'], bool=[0, 1], int=[0, 1, 2, 1], opt=[5, 5, 7], float=[0, 2, 2],
+               str=['a', 'b', '', 'a'], id=['x', 'y', 'x1'], dna=['A', 'C', '', 'A'])
+    def few_col(k, n):
+        return [rng.choice(FEW[k]) for _ in range(n)]
+    for rep in range(3 if tier == 'quick' else 14):
+        for k in ['strand', 'bool', 'int', 'opt', 'float', 'str', 'id', 'dna']:
+            sch = [['f0', k], ['f1', 'int']] + ([['f2', rng.choice(['strand', 'str', 'id'])]] if rng.random() < 0.4 else [])
+            mode = rng.choice(['direct', 'cat', 'cat3', 'cats'])
+            if mode == 'direct':
+                n0, n1 = rng.randint(17, 40), rng.choice([0, 1, 3])
+                prog = [['sort', 0]]
+            elif mode == 'cat':
+                n0, n1 = rng.randint(8, 16), rng.randint(9, 16)
+                prog = [[rng.choice(['catr', 'catl'])], ['sort', 0]]
+            elif mode == 'cat3':
+                n0, n1 = rng.randint(6, 12), rng.randint(6, 12)
+                prog = [['cat3'], ['sort', 0]]
+            else:
+                n0, n1 = rng.randint(9, 16), 2
+                prog = [['cats'], ['sort', 0]]
+            def mkcols(n, base):
+                cols = [few_col(k, n), [base + i for i in range(n)]]
+                if len(sch) == 3:
+                    cols.append(few_col(sch[2][1], n))
+                return cols
+            if rng.random() < 0.3:
+                prog.append(rng.choice([['sort', len(sch) - 1], ['rows'], ['take', [0, -1, 16, 17]]]))
+            cases.append(dict(cls='dyn', schema=sch, c0=mkcols(n0, 0), c1=mkcols(n1, 100), prog=prog))
+        # a class of bionumpy.datatypes with a strand column
+        n0 = rng.randint(17, 30)
+        sch = [[f, k] for f, k in DATATYPES['StrandedInterval']]
+        cases.append(dict(cls='StrandedInterval', schema=sch,
+                          c0=[few_col('id', n0), list(range(n0)), [i + 5 for i in range(n0)], few_col('strand', n0)],
+                          c1=[['x'], [0], [1], ['+']], prog=[['sort', 3]]))
+    # (7) two add_fields calls adding a field of the SAME NAME but another declared type to two tables of the same
+    #     class (the current table, then the other operand), in both orders; every result is compared with the rows
+    PAIRS = [('dna', 'str'), ('str', 'dna'), ('int', 'str'), ('str', 'int'), ('id', 'dna'), ('strand', 'str'), ('float', 'id')]
+    def typed_col(k, n, variant):
+        if k == 'str':
+            return [rng.choice(['acg', 'tt', 'hello', 'x y', 'ga']) for _ in range(n)]        # lower-case text
+        if k == 'dna':
+            col = [rng.choice(['ACG', 'T', 'GGA', '']) for _ in range(n)]
+            if variant == 'invalid' and n:
+                col[rng.randrange(n)] = rng.choice(['hello', 'AXG', 'x y'])                   # not DNA: must raise
+            return col
+        return _gen_col(rng, k, n)
+    for rep in range(2 if tier == 'quick' else 10):
+        for k1, k2 in PAIRS:
+            for variant in (['plain', 'invalid'] if k2 == 'dna' else ['plain']):
+                if rng.random() < 0.5:
+                    cname = rng.choice(['Interval', 'SequenceEntry', 'ChromosomeSize', 'BedGraph'])
+                    sch = [[f, k] for f, k in DATATYPES[cname]]
+                else:
+                    cname, sch = 'dyn', _gen_schema(rng, nested_ok=False)
+                n0, n1 = rng.choice([1, 2, 3]), rng.choice([1, 2, 4])
+                c0 = [_gen_col(rng, k, n0) for _, k in sch]
+                c1 = [_gen_col(rng, k, n1) for _, k in sch]
+                prog = [['add', 'z1', k1, typed_col(k1, n0, 'plain'), True],
+                        ['addt1', 'z1', k2, typed_col(k2, n1, variant), True]]
+                if rng.random() < 0.5:
+                    prog.append(rng.choice([['rows'], ['dict'], ['sort', len(sch)], ['cats'], ['iter']]))
+                cases.append(dict(cls=cname, schema=sch, c0=c0, c1=c1, prog=prog))
     return cases
 
 
@@ -466,6 +533,9 @@ def observe(case):
             elif o == 'add':
                 _, name, k, col, use_map = op
                 new = cur.add_fields({name: _pycol(k, col, cache)}, {name: _pytype(k, cache)} if use_map else None)
+            elif o == 'addt1':
+                _, name, k, col, use_map = op
+                new = t1.add_fields({name: _pycol(k, col, cache)}, {name: _pytype(k, cache)} if use_map else None)
             elif o == 'rows':
                 names = [f.name for f in dataclasses.fields(cur)]
                 tuples = [tuple(getattr(e, n) for n in names) for e in cur.tolist()]
@@ -486,6 +556,8 @@ def observe(case):
             cur = new
             if o == 'add':
                 cur_sch.append([op[1], op[2]])
+            if o == 'addt1':
+                cur_sch = [list(f) for f in sch] + [[op[1], op[2]]]
         except Exception as e:
             out['steps'].append(dict(err=type(e).__name__, msg=str(e)[:120]))
     after = []
@@ -586,7 +658,7 @@ def _obs(o):
                                 clist([_names(k) for k in o['keys']], 'list Z'))
 
 
-def _op(op, sch):
+def _op(op, sch, base=None):
     o = op[0]
     if o == 'take':
         return '(OTake %s)' % zl(op[1])
@@ -602,6 +674,8 @@ def _op(op, sch):
         return '(OReplace %d %s)' % (op[1], _colarg(sch[op[1]][1], op[2]))
     if o == 'add':
         return '(OAdd %s %s %s)' % (_names(op[1]), KCOQ[op[2]], clist([_mb_in(op[2], v) for v in op[3]], 'mb'))
+    if o == 'addt1':
+        return '(OAddT1 %s %s %s %s)' % (_schema(base), _names(op[1]), KCOQ[op[2]], clist([_mb_in(op[2], v) for v in op[3]], 'mb'))
     return dict(rows='ORows', dict='ODict', pandas='OPandas', iter='OIter')[o] if o != 'index' else '(OIndex %s)' % cz(op[1])
 
 
@@ -612,9 +686,11 @@ def to_coq(case, o):
     cur_sch = [list(f) for f in sch]
     ops = []
     for op, ob in zip(case['prog'], o['steps'] + [None] * len(case['prog'])):
-        ops.append(_op(op, cur_sch))
+        ops.append(_op(op, cur_sch, sch))
         if op[0] == 'add' and ob is not None and 'cols' in ob:
             cur_sch.append([op[1], op[2]])
+        if op[0] == 'addt1' and ob is not None and 'cols' in ob:
+            cur_sch = [list(f) for f in sch] + [[op[1], op[2]]]
     return ('{| k_sch := %s; k_a0 := %s; k_a1 := %s; k_prog := %s; k_t0 := %s; k_t1 := %s; k_steps := %s; '
             'k_t0_after := %s; k_t1_after := %s; k_unchanged := %s |}' % (
                 _schema(sch),
@@ -759,6 +835,9 @@ def _deviations(case, o):
         elif k == 'add':
             col = _in_col(op[2], op[3]) if _col_valid(op[2], op[3]) else None
             want = ('tab', [r + (c,) for r, c in zip(cur, col)]) if col is not None and len(col) == n else ('err',)
+        elif k == 'addt1':
+            col = _in_col(op[2], op[3]) if _col_valid(op[2], op[3]) else None
+            want = ('tab', [r + (c,) for r, c in zip(t1, col)]) if col is not None and len(col) == len(t1) else ('err',)
         elif k in ('rows', 'dict', 'pandas'):
             want = ('tab', cur)
         elif k == 'index':
@@ -770,8 +849,8 @@ def _deviations(case, o):
               or (want[0] == 'err' and 'err' in ob)
               or (want[0] == 'tab' and got_rows is not None and got_rows == want[1])
               or (want[0] == 'rows' and 'rowsonly' in ob and [tuple(_val(c) for c in r) for r in ob['rowsonly']] == want[1])
-              or (want[0] == 'sorted' and got_rows is not None and sorted(map(repr, got_rows)) == sorted(map(repr, cur))
-                  and all(_key_le(a[want[1]], b[want[1]]) for a, b in zip(got_rows, got_rows[1:]))))
+              or (want[0] == 'sorted' and got_rows is not None
+                  and got_rows == sorted(cur, key=lambda r: _sort_key(r[want[1]]))))
         if not ok:
             tag = None
             has_nested = any(_is_nested(kk) for _, kk in sch)
@@ -795,9 +874,16 @@ def _deviations(case, o):
             cur = got_rows
             if k == 'add':
                 sch.append([op[1], op[2]])
+            if k == 'addt1':
+                sch = [list(f) for f in case['schema']] + [[op[1], op[2]]]
     if len(o['steps']) != len(case['prog']):
         dev.append((-1, None, None, None))
     return dev
+
+
+def _sort_key(c):
+    # the stable sort of the row list by the key cell: numbers by value, strings by bytes
+    return c[1] if c[0] == 'z' else bytes.fromhex(c[1]) if c[0] == 's' else 0
 
 
 def _key_le(a, b):
